@@ -279,14 +279,14 @@ theorem cfor_empty_range (ρ : List FunDef) (f : Nat) (x : Name) (lo hi : Int) (
     (hadd : ∃ s2, (s.pushScope.allocV (.int lo)).2.addObject x (s.pushScope.allocV (.int lo)).1 = some s2) :
     ∃ l s', run ρ (f + 2) (.node (.cfor x lo hi b)) s = (.val l, s') ∧ s'.val l = .void ∧ s'.out = s.out ∧ s'.natLog = s.natLog := by
   obtain ⟨s2, hs2⟩ := hadd
-  have hval : s2.objAt s.pushScope.objs.length = .int lo := by
+  have hval : s2.val (s.pushScope.allocV (.int lo)).1 = .int lo := by
     unfold St.addObject at hs2
     split at hs2
     · cases hs2
     · split at hs2
       · cases hs2
       · cases hs2
-        simp [St.allocV, St.objAt, List.getD]
+        simp [St.allocV, St.val, St.cell, List.getD]
   have hout : s2.out = s.out ∧ s2.natLog = s.natLog := by
     unfold St.addObject at hs2
     split at hs2
